@@ -77,6 +77,7 @@ struct Explicit {
 
 /// Play `moves` (explicit) or tape-chosen library moves from `start`, checking every node.
 fn playout(ctx: &mut Ctx, start: &Pos, explicit: Option<&[Mv]>, tape: Option<&mut Tape>, max_plies: usize, special_bias: bool) -> Result<(), Violation> {
+    ctx.set_case(json!({"start": start.fen(), "moves": []}));
     let mut board = match gen::lib_start(start) {
         Some(b) => b,
         None => {
@@ -88,7 +89,7 @@ fn playout(ctx: &mut Ctx, start: &Pos, explicit: Option<&[Mv]>, tape: Option<&mu
     let mut played: Vec<Mv> = vec![];
     let mut prev = observe(&board);
     let mk_case = |played: &Vec<Mv>| json!({"start": start.fen(), "moves": played.iter().map(|m| m.uci()).collect::<Vec<_>>() });
-    ctx.current = Some(mk_case(&played));
+    ctx.set_case(mk_case(&played));
     check_node(ctx, &board, &prev, &|| mk_case(&played))?;
     let (mut saw_cap, mut saw_promo, mut saw_rights) = (false, false, false);
     for ply in 0..max_plies {
@@ -124,7 +125,7 @@ fn playout(ctx: &mut Ctx, start: &Pos, explicit: Option<&[Mv]>, tape: Option<&mu
             break;
         }
         played.push(m);
-        ctx.current = Some(mk_case(&played));
+        ctx.set_case(mk_case(&played));
         let nb = board.make_move_new(bridge::mv(m));
         let o = observe(&nb);
         ctx.eval();
@@ -162,6 +163,7 @@ fn playout(ctx: &mut Ctx, start: &Pos, explicit: Option<&[Mv]>, tape: Option<&mu
 
 /// Complete tree of the library's generated moves to `depth`, every node checked.
 fn tree(ctx: &mut Ctx, start: &Pos, depth: usize, node_cap: u64) -> Result<u64, Violation> {
+    ctx.set_case(json!({"start": start.fen(), "moves": []}));
     let board = match gen::lib_start(start) {
         Some(b) => b,
         None => {
@@ -180,7 +182,7 @@ fn tree(ctx: &mut Ctx, start: &Pos, depth: usize, node_cap: u64) -> Result<u64, 
             *nodes += 1;
             ctx.eval();
             let case = || json!({"start": start.fen(), "moves": path.iter().map(|m| m.uci()).collect::<Vec<_>>() });
-            ctx.current = Some(case());
+            ctx.set_case(case());
             check_node(ctx, &nb, &no, &case)?;
             check_edge(ctx, o, &no, &case)?;
             rec(ctx, start, &nb, &no, path, depth - 1, nodes, cap)?;
